@@ -46,6 +46,10 @@ func ZZ_C19_SaveLoad() {
 	if vParam("override") == 1 && s.withExp() {
 		s.step(zzOpSetExpiresAfter, 1, "c19.build")
 	}
+	if vParam("roverride") == 1 && s.withRef() {
+		// a per-entry refresh override of arbitrary length: the refresh deadline may lie at or after the expiration deadline
+		s.step(zzOpSetRefreshableAfter, 1, "c19.build")
+	}
 	if !lean {
 		s.zzAdvance(conc) // one entry may already be expired at save time
 	}
@@ -110,7 +114,10 @@ func ZZ_C19_SaveLoad() {
 				}
 			}
 			if s.withRef() {
-				if src[k].ref > loadNow {
+				if src[k].ref == zzMaxI64 {
+					// refresh pinned to "never" (deadline saturated to the "unreachable" sentinel)
+					vAssert(e.RefreshableAtNano == src[k].ref, "c19.refreshable_at.pinned_entry")
+				} else if src[k].ref > loadNow {
 					vAssert(e.RefreshableAtNano == src[k].ref, "c19.refreshable_at")
 				} else {
 					vAssert(e.RefreshableAtNano <= loadNow+1, "c19.due_entries_loaded_as_due")
